@@ -1,6 +1,8 @@
 """C04 — box encode/decode are mutually inverse and size-exact.
 
-proof:           Props/C04.v: one round-trip theorem per box (39 so far: all leaf boxes, sample entries, esds descriptors; containers as they land)
+proof:           Props/C04.v: one round-trip theorem per box (all leaf boxes, sample entries, esds descriptors, 13 containers);
+                 Props/C04Fixpoint.v: re-encoding is a fixpoint for every leaf decoder (35 theorems: every value a decoder returns is in the domain of its round trip;
+                 refuted exactly for esds frequency index 15 / object type >= 31: D95, D80)
 correspondence:  the extracted codec model vs the real codec on the enumerated shape space: decode outcome, value tree (parsed from {:?}),
                  final position, box_size/box_type, write_box outcome, return value and bytes
 oracle:          on the real codec: box_size() bytes written and returned, header size/type, exact consumption with a trailing sibling, decode(encode(v)) = v
@@ -11,11 +13,11 @@ import boxgen
 import isogen
 
 LEVEL = "proof"
-CONE = ["Props/C04.v"] + ["Proofs/%s" % f for f in sorted(__import__("os").listdir(common.COQ + "/theories/Proofs")) if f.startswith("Rt") and f.endswith(".v")]
+CONE = ["Props/C04.v", "Props/C04Fixpoint.v"] + ["Proofs/%s" % f for f in sorted(__import__("os").listdir(common.COQ + "/theories/Proofs")) if (f.startswith("Rt") or f.startswith("DecWf")) and f.endswith(".v")]
 
 
 def check(rep, prop="C04"):
-    proof_ok, details = common.proof_layer(rep, prop, CONE if prop == "C04" else CONE5, extra_targets=["theories/Extract/Extract.vo"])
+    proof_ok, details = common.proof_layer(rep, ["C04", "C04Fixpoint"] if prop == "C04" else prop, CONE if prop == "C04" else CONE5, extra_targets=["theories/Extract/Extract.vo"])
     with common.Lock():
         hb_ok, hb_log = common.harness_build(["run"])
         ob_ok, ob_log = common.ocaml_build()
@@ -38,7 +40,7 @@ def check(rep, prop="C04"):
         for (label, blen, hdr, plain), (impl, model) in zip(meta, res):
             f = boxcheck.oracle_c04(impl, blen, hdr)
             if f:
-                k = next((x for x in known if x.get("match") and x["match"] in label), None)
+                k = next((x for x in known if (x.get("match_re") and __import__("re").search(x["match_re"], label)) or (x.get("match") and x["match"] in label)), None)
                 if k:
                     if k["id"] not in seen_known:
                         seen_known.add(k["id"])
